@@ -191,9 +191,43 @@ func init() {
 		case "sc":
 			key := recSigner{sigSecretFromBytes(unhx(c.A["sk"])), log}
 			rcpt := []saltpack.BoxPublicKey{boxPubFromBytes(boxPk(bytes.Repeat([]byte{5}, 32)), false)}
+			var wire []byte
 			withRand(rng, func() {
-				guard(func() error { saltpack.SigncryptSeal(msg, &hRing{}, key, rcpt, nil); return nil })
+				guard(func() error { wire, _ = saltpack.SigncryptSeal(msg, &hRing{}, key, rcpt, nil); return nil })
 			})
+			// every signed string is the third domain string, the hash of the emitted header, the
+			// packet nonce, the final flag and the SHA-512 of the chunk — recomputed here from the wire
+			if objs, ok := splitObjects(wire); ok && len(objs) >= 2 {
+				if hn, _, err := mpParse(objs[0]); err == nil {
+					hh := sha(hn.Bytes)
+					var chunks [][]byte
+					for off := 0; off < len(msg) || off == 0; off += mib {
+						end := off + mib
+						if end > len(msg) {
+							end = len(msg)
+						}
+						chunks = append(chunks, msg[off:end])
+						if end == len(msg) {
+							break
+						}
+					}
+					if len(msg) > 0 && len(msg)%mib == 0 {
+						chunks = append(chunks, nil)
+					}
+					for i, e := range log.events {
+						p := strings.Split(e, ":")
+						if p[0] != "sign" || i >= len(chunks) {
+							continue
+						}
+						final := i == len(chunks)-1
+						want := scSigInput(hh, hashNonce(hh, final, uint64(i)), final, chunks[i])
+						if !bytes.Equal(unhx(p[2]), want) {
+							fs = append(fs, Failure{Kind: "oracle", Key: "signed-input-not-hash-of-chunk", Desc: fmt.Sprintf("signcryption Sign call %d (chunk of %d bytes): the signed string is not domain || header hash || nonce || final || SHA-512(chunk)", i+1, len(chunks[i]))})
+							break
+						}
+					}
+				}
+			}
 		case "enc":
 			sender := recBoxSecret{boxSecretFromBytes(unhx(c.A["sk"])), log}
 			rcpts, _, _ := parseRcpts(c.A["rcpts"])
@@ -366,7 +400,7 @@ func init() {
 				}
 				h.Run(Case{Op: "trace_sc_open", A: map[string]string{"keys": ringKeysStr(keys), "signers": blist([][]byte{p.signerSk[32:]}), "input": hx(input), "mut": mut}})
 			}
-			lens := []int{0, 1, 100, 3000, mib + 1}
+			lens := []int{0, 1, 63, 64, 65, 100, 3000, mib + 64}
 			for _, l := range lens {
 				for _, v := range []string{"1.0", "2.0", "3.0"} {
 					msg := h.rng.Bytes(l)
